@@ -328,11 +328,14 @@ func runC13(c *ctx) {
 	allStrings(chatAlpha, 4+ext, func(s string) { emitC13(c, 'C', "Shout <"+s) })
 	allStrings(chatAlpha, 4+ext, func(s string) { emitC13(c, 'C', "ShoutRoom a <"+s) })
 	allStrings("<> a", 7+ext, func(s string) { emitC13(c, 'C', "ShoutRoom "+s) })
+	// every short room name over the white-space bytes \S excludes, \v (which it accepts) and friends, in an otherwise complete line
+	allStrings("a\t\n\f\r\v<\x80 ", 3+ext, func(s string) { emitC13(c, 'C', "ShoutRoom "+s+" <a> a") })
 	chat := []string{"Tell <alice> hello", "Shout <bob> hi there", "ShoutRoom room1 <carol> msg", "Tell", "Shout <", "ShoutRoom", "Tell <> ", "Shout <a", "ShoutRoom x <y",
 		"Tell <a> <b> c", "ShoutRoom a<b <c> d", "ShoutRoom a <b <c> d", "ShoutRoom <a> <b> <c> d", "ShoutRoom  <a> b", "ShoutRoom a  <b> c", "ShoutRoom a\t<b> c",
 		"ShoutRoom a\v <b> c", "Tell <a\nb> c", "Tell <a> b\n", "Tell <a> b\nc", "Tell <a> \n", "Tell <a>  ", "Tell <a> ", "Tell <a>b", "Tell <a b> c", "Tell <a>b> c",
 		"Tell <\xff\xfe> \xc3", "Shout <\xe2\x82> \xac", "ShoutRoom \xc3\xa9 <\xf0\x9f\x98\x80> \xed\xa0\x80", " Tell <a> b", "Tell <a> b\r", "tell <a> b",
-		"Tell <a> b Tell <c> d", "Shout <a> b\nShout <c> d", "ShoutRoom Over <x> gg", "ShoutRoom a <b> c\x00d", "Tell <\x00> \x00"}
+		"Tell <a> b Tell <c> d", "Shout <a> b\nShout <c> d", "ShoutRoom Over <x> gg", "ShoutRoom a <b> c\x00d", "Tell <\x00> \x00",
+		"ShoutRoom a\tb <c> d", "ShoutRoom a\rb <c> d\r", "ShoutRoom a\fb <c> d"}
 	for _, s := range chat {
 		emitC13(c, 'C', s)
 		for k := 0; k < 20*c.scale; k++ {
